@@ -23,7 +23,7 @@ def lenclass(cx, b, d):
     h = d[0]
     if h == 'call':
         n = d[1]
-        if n in ('Iterator::collect', 'Iterator::rev', 'Iterator::map', 'Iterator::cloned', 'Iterator::copied', 'Iterator::enumerate',
+        if n in ('Iterator::collect', 'Iterator::rev', 'Iterator::map', 'Vec::into_iter', 'IntoIterator::into_iter', 'Iterator::cloned', 'Iterator::copied', 'Iterator::enumerate',
                  'Itertools::collect_vec') or n.endswith(('DiscreteDomain::values', 'DiscreteDomain::iter', 'DiscreteDomain::deref')):
             return lenclass(cx, b, d[2])
         if n.endswith('DiscreteDomain::try_from'):
@@ -49,6 +49,9 @@ def lenclass(cx, b, d):
         return ('series', d[2][2])
     if h == 'param':
         return ('param', d[2])
+    if h == 'phi':
+        cl = {lenclass(cx, b, a) for a in d[1:]}       # every alternative has the same length class (a reversal keeps the length)
+        return cl.pop() if len(cl) == 1 else None
     return None
 
 
@@ -265,19 +268,28 @@ def run(cx):
         else:
             cx.ob('COMUT', f'Series1::new@{k}:lockstep', False, f'{b.name}: cannot relate the lengths of abscissae and ordinates', where=s,
                   found=f'x={show(x)} ({lx}) y={show(y)} ({ly})')
-    cx.floor('CONSTRUCT', 'Series1::new', n, 13, 'Series1::new call sites')
+    cx.floor('CONSTRUCT', 'Series1::new', n, 12, 'Series1::new call sites (13 counted; one less is allowed for a merge of two duplicated branches)')
 
     # ---------------------------------------------------------------- scaled_by: co-reversal
     b = cx.fn(f'{S1}::scaled_by')
     if b:
+        # per polarity of `scale_x < 0`: is the vector handed to try_from reversed, is the ordinate vector handed to Series1::new reversed
+        # (two sites under if/else, or one site fed by `let (xs, ys) = if .. {..} else {..}`)
+        SPLIT = '(lt (param scale_x) 0.0)'
+        revx, revy = {True: set(), False: set()}, {True: set(), False: set()}
+        for t in b.calls(f'{DD}::try_from'):
+            cs = cx.cases_by(b, t, t.data['args'][:1], SPLIT)
+            for pol in (True, False):
+                if cs[pol][0] is not None:
+                    revx[pol].add(find('(call Iterator::rev _)', cs[pol][0]) is not None)
         for s in b.calls(f'{S1}::new'):
-            x, y = cx.arg(s, 0), cx.arg(s, 1)
-            rx = find('(call Iterator::rev _)', x) is not None
-            ry = find('(call Iterator::rev _)', y) is not None
-            neg = cx.guarded(b, s.bb, '(lt (param scale_x) 0.0)', True) is not None
-            pos = cx.guarded(b, s.bb, '(lt (param scale_x) 0.0)', False) is not None
-            cx.ob('COMUT', f'Series1::scaled_by:{"neg" if neg else "pos"}', (rx == ry) and (rx == neg) and (neg or pos),
-                  'scaled_by reverses abscissae AND ordinates exactly when scale_x < 0', where=s, found=f'rev(x)={rx} rev(y)={ry} under scale_x<0: {neg}')
+            cs = cx.cases_by(b, s, s.data['args'][1:2], SPLIT)
+            for pol in (True, False):
+                if cs[pol][0] is not None:
+                    revy[pol].add(find('(call Iterator::rev _)', cs[pol][0]) is not None)
+        for pol, nm in ((True, 'neg'), (False, 'pos')):
+            cx.ob('COMUT', f'Series1::scaled_by:{nm}', revx[pol] == {pol} and revy[pol] == {pol},
+                  'scaled_by reverses abscissae AND ordinates exactly when scale_x < 0', where=b.file, found=f'under scale_x<0 = {pol}: rev(x) in {sorted(revx[pol])} rev(y) in {sorted(revy[pol])}')
     # ---------------------------------------------------------------- between: boundary samples
     b = cx.fn(f'{S1}::between')
     if b:
